@@ -541,17 +541,17 @@ func body(r *ev.Run) {
 			caseID := fmt.Sprintf("sched/%s/shard%d", sc.Name, sh)
 			r.Do(caseID, func() {
 				if len(sc.Threads) == 2 {
-					e.exploreDFS(sc, caseID, r.Pick(2, 6), r.Pick(400, 60000)/nShards, sh, nShards)
+					e.exploreDFS(sc, caseID, r.Pick(2, 6), r.Pick(400, 24000)/nShards, sh, nShards)
 				} else {
 					e.exploreDFS(sc, caseID, 1, r.Pick(150, 3000)/nShards, sh, nShards)
-					e.exploreRandom(sc, caseID, r.Pick(150, 20000)/nShards)
+					e.exploreRandom(sc, caseID, r.Pick(150, 8000)/nShards)
 				}
 			})
 		}
 		_ = si
 	}
 	// (4) free-running reorganisation storms with tip readers
-	for i := 0; i < r.Pick(4, 48); i++ {
+	for i := 0; i < r.Pick(4, 32); i++ {
 		caseID := fmt.Sprintf("storm/%d", i)
 		r.Do(caseID, func() { reorgStorm(r, caseID) })
 	}
